@@ -19,7 +19,7 @@ def gen_design(r, ncells=None, nlibs=None):
     def namedef(prefix, weird=0.3):
         i = ident(prefix)
         if r.random() < weird:
-            return (i, r.choice(["%s[x]", "%s.orig", "\\%s ", "%s/sub", "%s name", "$%s"]) % i)
+            return (i, r.choice(["%s[x]", "%s.orig", "\\%s ", "%s/sub", "%s name", "$%s", "%s_o", "o_%s", "n_%s"]) % i)
         return (i, None)
     nlibs = nlibs or r.choice([1, 2, 2, 3])
     libs = [{"name": namedef("lib", 0.2), "cells": [], "external": (k == 0 and r.random() < 0.2)} for k in range(nlibs)]
@@ -30,7 +30,13 @@ def gen_design(r, ncells=None, nlibs=None):
         if r.random() < 0.3:
             li = r.randint(li, nlibs - 1)
         leaf = k < max(1, ncells // 3)
-        cell = {"name": namedef("CELL" if r.random() < 0.5 else "cell", 0.2), "ports": [], "insts": [], "nets": []}
+        cname = namedef("CELL" if r.random() < 0.5 else "cell", 0.2)
+        elsewhere = [c for (l2, c) in cells if l2 != li and
+                     all(c["name"][0].lower() != c3["name"][0].lower() for c3 in libs[li]["cells"])]
+        if elsewhere and r.random() < 0.25:
+            # the same cell identifier may be declared in several libraries (each library is its own scope)
+            cname = (r.choice(elsewhere)["name"][0], cname[1])
+        cell = {"name": cname, "ports": [], "insts": [], "nets": []}
         for j in range(r.randint(1, 4)):
             w = r.choice([1, 1, 1, 2, 3, 4])
             arr = w > 1 or r.random() < 0.15
@@ -68,7 +74,8 @@ def gen_design(r, ncells=None, nlibs=None):
             # bus nets: bits in random order, possibly with gaps
             for j in range(r.randint(0, 2)):
                 bid = ident("bus")
-                bname = bid if r.random() < 0.6 else bid + "$o"
+                x = r.random()
+                bname = bid if x < 0.5 else (bid + "$o" if x < 0.8 else "%s[%d]" % (bid, r.randint(0, 3)))   # 2-D style base names
                 idxs = r.sample(range(0, 9), r.randint(1, 4))
                 for ix in idxs:
                     k2 = min(len(eps), r.choice([0, 1, 2, 3]))
@@ -80,6 +87,12 @@ def gen_design(r, ncells=None, nlibs=None):
         libs[li]["cells"].append(cell)
         cells.append((li, cell))
     tl, tc = cells[-1]
+    if tl < nlibs - 1 and r.random() < 0.4:
+        # a decoy: another cell with the top cell's identifier in a library declared later
+        l2 = r.randint(tl + 1, nlibs - 1)
+        if all(c["name"][0].lower() != tc["name"][0].lower() for c in libs[l2]["cells"]):
+            libs[l2]["cells"].append({"name": (tc["name"][0], None), "ports": [
+                {"name": (ident("p"), None), "width": 1, "array": False, "dir": "INPUT", "base": 0}], "insts": [], "nets": []})
     return {"name": namedef("design", 0.2), "libs": libs, "top": (tc["name"][0], libs[tl]["name"][0]),
             "design_name": namedef("top", 0.2)}
 
